@@ -34,19 +34,23 @@ func genEntry(r *vh.Rand) string {
 	}
 	var cmd []byte
 	switch k := r.Intn(36); {
-	case k < 6:
-	case k < 12:
+	case k < 18: // nil or empty-non-nil (see ctok below): 1/4 each
+	case k < 22:
 		cmd = r.Bytes(1)
-	case k < 18:
-		cmd = r.Bytes(r.Intn(20))
-	case k < 24:
+	case k < 26:
+		cmd = r.Bytes(1 + r.Intn(20))
+	case k < 30:
 		cmd = r.Bytes(126 + r.Intn(4))
-	case k < 25:
+	case k < 31:
 		cmd = r.Bytes(16382 + r.Intn(4))
 	default:
 		cmd = r.Bytes(r.Intn(400))
 	}
-	return fmt.Sprintf("ENTRY %d %d %d %d %d %d %d %s", u(), u(), ty, u(), u(), u(), u(), vh.Hex(cmd))
+	ctok := vh.Hex(cmd)
+	if len(cmd) == 0 && r.Bool() {
+		ctok = "=" // empty but non-nil
+	}
+	return fmt.Sprintf("ENTRY %d %d %d %d %d %d %d %s", u(), u(), ty, u(), u(), u(), u(), ctok)
 }
 
 func genDecode(r *vh.Rand) string {
@@ -90,7 +94,15 @@ func parseEntry(f []string) pb.Entry {
 	ty, err := strconv.ParseInt(f[2], 10, 32)
 	must(err)
 	return pb.Entry{Term: u(f[0]), Index: u(f[1]), Type: pb.EntryType(ty), Key: u(f[3]),
-		ClientID: u(f[4]), SeriesID: u(f[5]), RespondedTo: u(f[6]), Cmd: vh.UnHex(f[7])}
+		ClientID: u(f[4]), SeriesID: u(f[5]), RespondedTo: u(f[6]), Cmd: cmdTok(f[7])}
+}
+
+// cmdTok: "-" = nil, "=" = empty but non-nil, else hex
+func cmdTok(t string) []byte {
+	if t == "=" {
+		return []byte{}
+	}
+	return vh.UnHex(t)
 }
 
 func must(err error) {
